@@ -204,6 +204,12 @@ pub fn gen_seq(seed: u64, ncases: u64, maxlen: u64, zero_ok: bool, rebuilds: boo
             let c = *r.pick(&[(1u64 << 32) - 2, (1u64 << 53) - 1, (1u64 << 63) - 2, 1u64 << 16, 999_999, 999_999_998, 9_999_999_999, 12_000_000_001, 999_999_999_999_999_998, 9_999_999_999_999_999_998, 0, 0]);
             let ns = match r.below(4) { 0 => "std".to_string(), 1 => "nil".to_string(), 2 => "max".to_string(), _ => format!("{:x}", ((r.next() as u128) << 64) | r.next() as u128) };
             out.push(format!("newgen {c} {ns}"));
+            // the ids themselves: what the real generator over that namespace returns at and around that counter,
+            // against the model's SHA-1 / version-5 construction
+            let nsv: u128 = match ns.as_str() { "std" => crate::run::NS, "nil" => 0, "max" => u128::MAX, h => u128::from_str_radix(h, 16).unwrap_or(0) };
+            for k in [c, c.wrapping_add(1), c.wrapping_sub(1), r.next()] {
+                out.push(format!("v5 {nsv} {k}"));
+            }
         }
         let mut total: u128 = 0; // everything ever supplied (upper bound for sums)
         if zero_ok && !rebuilds && r.chance(1, 6) {
